@@ -492,6 +492,40 @@ theorem sorter_unique {α : Type} (le : α → α → Bool) (s₁ s₂ : Sorter 
   · intro a b ha hb
     exact anti a b ((s₁.perm l₁).mem_iff.mp ha) ((s₁.perm l₁).mem_iff.mp hb)
 
+/-- the generic statement behind class `wholeElement`: a comparator program (ANY key list, interpreted by `cmpRec` on records
+with arbitrarily many numeric / text fields) whose keys cover every field of the element type cannot leave two distinct
+elements unseparated -/
+theorem cover_separates (keys : List SortKey) (fields : List String) (a b : Rec) (ha : a.map (·.1) = fields)
+    (hb : b.map (·.1) = fields) (hn : fields.Nodup) (hcov : ∀ f ∈ fields, ∃ k ∈ keys, k.field = f)
+    (h : cmpRec keys a b = .eq) : a = b :=
+  FxVerif.Proofs.C17.cover_separates keys fields a b ha hb hn hcov h
+
+/-- decided over the regenerated sites: every `wholeElement` site's keys cover its element type's (distinct) fields -/
+theorem whole_sites_ok : sortSites.all (fun s => (sortClassify s).map (·.1) != some .wholeElement || wholeOk s) = true := by decide
+
+/-- … hence EVERY sort site of class `wholeElement` — with the comparator program and the element fields as regenerated —
+separates distinct elements … -/
+theorem wholeElement_sites_separate (s : SortSite) (hs : s ∈ sortSites) (hc : (sortClassify s).map (·.1) = some .wholeElement)
+    (a b : Rec) (ha : a.map (·.1) = s.elemFields) (hb : b.map (·.1) = s.elemFields) (h : cmpRec s.keys a b = .eq) : a = b := by
+  have h1 := all_eq_true.mp whole_sites_ok s hs
+  simp only [hc, bne_self_eq_false, Bool.false_or] at h1
+  unfold wholeOk at h1
+  simp only [Bool.and_eq_true, all_eq_true, any_eq_true, beq_iff_eq, decide_eq_true_eq] at h1
+  exact cover_separates s.keys s.elemFields a b ha hb h1.2 (fun f hf => h1.1 f hf) h
+
+/-- … and its result is the same for any two sorting algorithms and any two arrangements of the same elements -/
+theorem wholeElement_sites_sort_unique (s : SortSite) (hs : s ∈ sortSites) (hc : (sortClassify s).map (·.1) = some .wholeElement)
+    (s₁ s₂ : Sorter Rec (leRec s.keys)) {l₁ l₂ : List Rec} (hp : l₁.Perm l₂) (hl : ∀ a ∈ l₁, a.map (·.1) = s.elemFields) :
+    s₁.sort l₁ = s₂.sort l₂ := by
+  apply FxVerif.Proofs.C17.perm_sorted_eq (leRec s.keys)
+  · exact (s₁.perm l₁).trans (hp.trans (s₂.perm l₂).symm)
+  · exact s₁.sorted l₁
+  · exact s₂.sorted l₂
+  · intro a b ha hb h1 h2
+    have ha' := (s₁.perm l₁).mem_iff.mp ha
+    have hb' := (s₁.perm l₁).mem_iff.mp hb
+    exact wholeElement_sites_separate s hs hc a b (hl a ha') (hl b hb') (FxVerif.Proofs.C17.leRec_antisymm s.keys a b h1 h2)
+
 /-- `NewOracleSet`: the regenerated comparator program of `BridgeValidators.Less` (power descending, then external address)
 separates any two distinct members, so the stored member order — hence the checkpoint every oracle signs — is the same
 for every sort algorithm and every order in which the members were collected -/
@@ -522,6 +556,23 @@ theorem ties_input_order_dependent :
     ∃ (s : Sorter NS missedLe) (l₁ l₂ : List NS), l₁.Perm l₂ ∧ s.sort l₁ ≠ s.sort l₂ :=
   ⟨FxVerif.Proofs.C17.insertSorter missedLe FxVerif.Proofs.C17.missedLe_trans FxVerif.Proofs.C17.missedLe_total,
    [⟨0, "val-a"⟩, ⟨0, "val-b"⟩], [⟨0, "val-b"⟩, ⟨0, "val-a"⟩], Perm.swap _ _ _, by decide⟩
+
+theorem pairwiseB_iff {α : Type} (le : α → α → Bool) : ∀ l : List α, pairwiseB le l = true ↔ l.Pairwise (fun a b => le a b = true) := by
+  intro l
+  induction l with
+  | nil => simp [pairwiseB]
+  | cons a t ih => simp only [pairwiseB, Bool.and_eq_true, all_eq_true, pairwise_cons, ih]
+
+/-- the executable check the driver applies to the real `validatorList(missed)` output is exactly the sort contract -/
+theorem meetsSortContract_iff {α : Type} [BEq α] [LawfulBEq α] (le : α → α → Bool) (inp out : List α) :
+    meetsSortContract le inp out = true ↔ out.Perm inp ∧ out.Pairwise (fun a b => le a b = true) := by
+  unfold meetsSortContract
+  rw [Bool.and_eq_true, isPerm_iff, pairwiseB_iff]
+
+/-- … and every algorithm meeting the contract passes it -/
+theorem sorter_meets_contract {α : Type} [BEq α] [LawfulBEq α] (le : α → α → Bool) (s : Sorter α le) (l : List α) :
+    meetsSortContract le l (s.sort l) = true :=
+  (meetsSortContract_iff le l (s.sort l)).mpr ⟨s.perm l, s.sorted l⟩
 
 /-- what remains true for a comparator with ties: replicas that run the same algorithm on an input that is itself
 schedule-independent (the bonded validators in store order) agree, whatever their map schedules -/
@@ -555,6 +606,11 @@ example : (run Sched.id ⟨[⟨"o1", 1, true, 5⟩, ⟨"o2", 1, true, 5⟩, ⟨"
 example : createBatchFees [⟨"b", 5, 10⟩, ⟨"a", 1, 5⟩, ⟨"b", 3, 7⟩, ⟨"b", 2, 1⟩] 2 [("a", 2)] = [("b", 8, 17, 2)] := by decide
 example : sites.length ≥ 20 := by decide
 example : sortSites.length ≥ 5 := by decide
+example : meetsSortContract missedLe [⟨0, "a"⟩, ⟨3, "b"⟩, ⟨0, "c"⟩] [⟨3, "b"⟩, ⟨0, "c"⟩, ⟨0, "a"⟩] = true ∧
+    meetsSortContract missedLe [⟨0, "a"⟩, ⟨3, "b"⟩] [⟨0, "a"⟩, ⟨3, "b"⟩] = false := by decide
+example : (sortSites.filter (fun s => (sortClassify s).map (·.1) == some .wholeElement)).length ≥ 3 := by decide
+example : cmpRec oracleSetKeys (memberRec 5 "0xa") (memberRec 5 "0xb") = .lt ∧ cmpRec oracleSetKeys (memberRec 5 "0xa") (memberRec 7 "0x0") = .gt := by decide
+example : sortMemberRecs [memberRec 5 "0xb", memberRec 7 "0xc", memberRec 5 "0xa"] = [memberRec 7 "0xc", memberRec 5 "0xa", memberRec 5 "0xb"] := by decide
 example : render (2 ^ 32 - 1) = 10 ^ 8 ∧ showFixed 8 (render 123456789012) = "28.74452366" := by decide
 example : needsOracleSet 429496709 (10 ^ 17) = true ∧ needsOracleSet 429496708 (10 ^ 17) = false := by decide
 example : powerDiffStep [3, -4, 0] (10 ^ 17) = some (0, false) := by decide
